@@ -11,12 +11,64 @@
 //   case <d|f> <12 numbers: box min, box max, pos, dir>   numbers: strtod syntax or x<16 hex digits>
 //   nd <boxes> <R> <ox> <oy> <oz>                      non-dyadic direction lattice: <blk> <tieD> <tieF> <boolD> <boolF> <nFe> <nIs>
 //   ndlines <boxes> <R> <ox> <oy> <oz> <blk> <d|f>     per-case text of one block (points as double bit patterns)
-//   sweep <d|f> <seed> <quick|thorough>                float guard sweep blocks (input of `drv_raybox sweep`)
+//   sweep <d|f> <seed> <quick|thorough>                float guard sweep blocks (input of `drv_raybox sweep`): per block the
+//        inputs as bit patterns, `impl` (results), `pts` (where the reported points lie: in box / on a face / never
+//        written / NaN), `tie` (per (px,py) chunk: hash of results + bit patterns of the points when true)
+//   sweeplines <d|f> <seed> <quick|thorough> <block> <chunk>   per-case text of one chunk (inputs and outputs as bit patterns)
+//   small <T> <boxes> <posvals> <dirvals>              guard lattice at the scalar type Small (numeric_limits<Small>::max() = T)
+//   smalllines <T> <boxes> <posvals> <dirvals> <blk>   per-case text of one block
+//   smallcase <T> <12 numbers>                         one case at the scalar type Small
 //
 // On the lattice directions are integers in [-2,2] and box/origin coordinates are
 // (integer + offset) * 2^sh, so every quotient, product and sum the code forms is
 // an exactly representable dyadic rational at float and at double: outputs are
 // converted to exact fractions num/den and compared EXACTLY with the model over Rat.
+#include <limits>
+// ---------------------------------------------------------------------------
+// Small: a scalar type (a double underneath) whose std::numeric_limits<Small>::max() is a SMALL number
+// (g_smallT, 4 in the check).  The real templates findEntryAndExitPoints / intersects are instantiated at
+// Vec3<Small>, Box<Vec3<Small>>, Line3<Small>: on a dyadic lattice every `TMAX` guard of the code can then
+// fail with exactly representable operands, so all guard-fail arms are compared EXACTLY with the model.
+static double g_smallT = 4;
+struct Small
+{
+    double v;
+    constexpr Small () : v (0) {}
+    constexpr Small (double d) : v (d) {}
+    constexpr Small (int i) : v (i) {}
+    constexpr explicit operator double () const { return v; }
+};
+constexpr Small operator+ (Small a, Small b) { return Small (a.v + b.v); }
+constexpr Small operator- (Small a, Small b) { return Small (a.v - b.v); }
+constexpr Small operator* (Small a, Small b) { return Small (a.v * b.v); }
+constexpr Small operator/ (Small a, Small b) { return Small (a.v / b.v); }
+constexpr Small operator- (Small a) { return Small (-a.v); }
+constexpr bool  operator< (Small a, Small b) { return a.v < b.v; }
+constexpr bool  operator> (Small a, Small b) { return a.v > b.v; }
+constexpr bool  operator<= (Small a, Small b) { return a.v <= b.v; }
+constexpr bool  operator>= (Small a, Small b) { return a.v >= b.v; }
+constexpr bool  operator== (Small a, Small b) { return a.v == b.v; }
+constexpr bool  operator!= (Small a, Small b) { return a.v != b.v; }
+inline Small&   operator+= (Small& a, Small b) { a.v += b.v; return a; }
+inline Small&   operator-= (Small& a, Small b) { a.v -= b.v; return a; }
+inline Small&   operator*= (Small& a, Small b) { a.v *= b.v; return a; }
+inline Small&   operator/= (Small& a, Small b) { a.v /= b.v; return a; }
+namespace std
+{
+template <> struct numeric_limits<Small>
+{
+    static constexpr bool is_specialized = true;
+    static constexpr bool is_signed      = true;
+    static constexpr bool is_integer     = false;
+    static constexpr bool is_exact       = false;
+    static constexpr bool has_infinity   = false;
+    static Small          max () noexcept { return Small (g_smallT); }
+    static Small          lowest () noexcept { return Small (-g_smallT); }
+    static Small          min () noexcept { return Small (std::numeric_limits<double>::min ()); }
+    static Small          epsilon () noexcept { return Small (std::numeric_limits<double>::epsilon ()); }
+};
+} // namespace std
+
 #include <ImathBoxAlgo.h>
 #include <ImathBox.h>
 #include <ImathLine.h>
@@ -162,7 +214,7 @@ static std::string qs (double v)
     if (d == 0) snprintf (buf, sizeof buf, "%a", v); else snprintf (buf, sizeof buf, "%lld/%lld", (long long) n, (long long) d);
     return buf;
 }
-template <class T> static std::string vs (const Vec3<T>& v) { return qs (v.x) + "," + qs (v.y) + "," + qs (v.z); }
+template <class T> static std::string vs (const Vec3<T>& v) { return qs ((double) v.x) + "," + qs ((double) v.y) + "," + qs ((double) v.z); }
 
 template <class T> static void printLines (const Lat& L, int bi)
 {
@@ -218,6 +270,62 @@ template <class T> static void oneCase (char** a)
             bits (dir.y).c_str (), bits (dir.z).c_str ());
 }
 
+
+// ---------------------------------------------------------------------------
+// bit-pattern tie (guard sweep): results always + bit patterns of the points when the result is true,
+// every NaN mapped to one canonical pattern (payload and sign of a NaN are not specified)
+static inline uint64_t dbitsC (double d)
+{
+    if (std::isnan (d)) return 0x7ff8000000000000ull;
+    uint64_t u; memcpy (&u, &d, 8); return u;
+}
+template <class T> static inline uint64_t mixVc (uint64_t h, const Vec3<T>& v)
+{
+    return mix (mix (mix (h, dbitsC ((double) v.x)), dbitsC ((double) v.y)), dbitsC ((double) v.z));
+}
+template <class T> static uint64_t tieBitsC (uint64_t h, const Out<T>& o)
+{
+    h = mixB (h, o.fe);
+    if (o.fe) { h = mixVc (h, o.entry); h = mixVc (h, o.exit); }
+    h = mixB (h, o.is);
+    if (o.is) h = mixVc (h, o.ip);
+    return mixB (h, o.isb);
+}
+static std::string hxs (uint64_t u) { char b[32]; snprintf (b, sizeof b, "%llx", (unsigned long long) u); return b; }
+template <class T> static std::string pvc (const Vec3<T>& v)
+{
+    return hxs (dbitsC ((double) v.x)) + "," + hxs (dbitsC ((double) v.y)) + "," + hxs (dbitsC ((double) v.z));
+}
+
+// where a reported point lies: 0 in the closed box and on one of its faces, 1 never written (still the
+// sentinel), 2 a NaN coordinate, 3 outside the box or on no face.  Exact: every assignment in the code is
+// (face value, clamp, clamp), so a written point satisfies 0 exactly, also in floating point.
+template <class T> static int ptCode (const Vec3<T>& p, const Box<Vec3<T>>& b, const Vec3<T>& sentinel)
+{
+    if (p.x == sentinel.x && p.y == sentinel.y && p.z == sentinel.z) return 1;
+    if (std::isnan ((double) p.x) || std::isnan ((double) p.y) || std::isnan ((double) p.z)) return 2;
+    bool in = p.x >= b.min.x && p.x <= b.max.x && p.y >= b.min.y && p.y <= b.max.y && p.z >= b.min.z && p.z <= b.max.z;
+    bool face = p.x == b.min.x || p.x == b.max.x || p.y == b.min.y || p.y == b.max.y || p.z == b.min.z || p.z == b.max.z;
+    return (in && face) ? 0 : 3;
+}
+template <class T> static int ptCodes (const Out<T>& o, const Box<Vec3<T>>& b, const Vec3<T>& pos)
+{
+    int c = 0;
+    if (o.fe)
+    {
+        c += ptCode (o.entry, b, Vec3<T> (1001, 1002, 1003));
+        c += 4 * ptCode (o.exit, b, Vec3<T> (2001, 2002, 2003));
+    }
+    if (o.is)
+    {
+        bool inside = pos.x >= b.min.x && pos.x <= b.max.x && pos.y >= b.min.y && pos.y <= b.max.y && pos.z >= b.min.z &&
+                      pos.z <= b.max.z;
+        if (inside) c += 16 * ((o.ip.x == pos.x && o.ip.y == pos.y && o.ip.z == pos.z) ? 0 : 3);
+        else c += 16 * ptCode (o.ip, b, Vec3<T> (3001, 3002, 3003));
+    }
+    return c;
+}
+
 // ---------------------------------------------------------------------------
 // float guard sweep
 
@@ -260,7 +368,8 @@ template <class T> struct SweepBox
 // Blocks: first the DETERMINISTIC ones (independent of the seed: the canonical witness of
 // every flip class is the first flip of that class in block order, hence reproducible),
 // then the seeded ones.
-template <class T> static void sweep (uint64_t seed, bool thorough)
+// lineBlock >= 0: print the per-case text of chunk lineChunk of that block instead of the block summaries
+template <class T> static void sweep (uint64_t seed, bool thorough, int lineBlock = -1, int lineChunk = 0)
 {
     const T M  = std::numeric_limits<T>::max ();
     const T dn = std::numeric_limits<T>::denorm_min ();
@@ -316,6 +425,25 @@ template <class T> static void sweep (uint64_t seed, bool thorough)
         const Box<Vec3<T>>& b = boxes[bi].b;
         std::vector<T>      P[3];
         for (int a = 0; a < 3; ++a) P[a] = boxes[bi].P[a].empty () ? posList<T> (b.min[a], b.max[a]) : boxes[bi].P[a];
+        if (lineBlock >= 0)
+        {
+            if ((int) bi != lineBlock) continue;
+            size_t ix = (size_t) lineChunk / P[1].size (), iy = (size_t) lineChunk % P[1].size ();
+            if (ix >= P[0].size ()) return;
+            T   x = P[0][ix], y = P[1][iy];
+            int k = 0;
+            for (T z : P[2]) for (T dx : D) for (T dy : D) for (T dz : D)
+            {
+                Out<T> o = run<T> (b, Vec3<T> (x, y, z), Vec3<T> (dx, dy, dz));
+                printf ("%d in=%s %s %s %s %s %s %s %s %s %s %s %s | I fe=%d entry=%s exit=%s is=%d ip=%s isb=%d | pts=%d\n", k++,
+                        bits (b.min.x).c_str (), bits (b.min.y).c_str (), bits (b.min.z).c_str (), bits (b.max.x).c_str (),
+                        bits (b.max.y).c_str (), bits (b.max.z).c_str (), bits (x).c_str (), bits (y).c_str (), bits (z).c_str (),
+                        bits (dx).c_str (), bits (dy).c_str (), bits (dz).c_str (), (int) o.fe,
+                        o.fe ? pvc (o.entry).c_str () : "-", o.fe ? pvc (o.exit).c_str () : "-", (int) o.is,
+                        o.is ? pvc (o.ip).c_str () : "-", (int) o.isb, ptCodes (o, b, Vec3<T> (x, y, z)));
+            }
+            return;
+        }
         printf ("T %s\n", bits ((double) M).c_str ());
         printf ("prec %d\n", isF ? 24 : 53);
         printf ("eta %s\n", isF ? "1/10000" : "1/1000000000");
@@ -336,16 +464,23 @@ template <class T> static void sweep (uint64_t seed, bool thorough)
             for (T v : D) printf (" %s", bits ((double) v).c_str ());
             printf ("\n");
         }
-        std::string impl;
-        for (T x : P[0]) for (T y : P[1]) for (T z : P[2])
-            for (T dx : D) for (T dy : D) for (T dz : D)
-            {
-                if (dx == 0 && dy == 0 && dz == 0) continue;
-                Out<T> o = run<T> (b, Vec3<T> (x, y, z), Vec3<T> (dx, dy, dz));
-                int    c = (o.fe ? 1 : 0) + (o.is ? 2 : 0) + ((o.isb != o.is) ? 4 : 0);
-                impl.push_back ((char) ('0' + c));
-            }
-        printf ("impl %s\nend\n", impl.c_str ());
+        // the zero direction is INCLUDED (the line degenerates to the point pos)
+        std::string impl, pts, tie;
+        for (T x : P[0]) for (T y : P[1])
+        {
+            uint64_t th = 1469598103934665603ull;
+            for (T z : P[2])
+                for (T dx : D) for (T dy : D) for (T dz : D)
+                {
+                    Out<T> o = run<T> (b, Vec3<T> (x, y, z), Vec3<T> (dx, dy, dz));
+                    int    c = (o.fe ? 1 : 0) + (o.is ? 2 : 0) + ((o.isb != o.is) ? 4 : 0);
+                    impl.push_back ((char) ('0' + c));
+                    pts.push_back ((char) ('0' + ptCodes (o, b, Vec3<T> (x, y, z))));
+                    th = tieBitsC (th, o);
+                }
+            tie += " " + std::to_string ((unsigned long long) th);
+        }
+        printf ("impl %s\npts %s\ntie%s\nend\n", impl.c_str (), pts.c_str (), tie.c_str ());
     }
 }
 
@@ -457,6 +592,58 @@ template <class T> static void ndLines (const ND& n, int blk)
     }
 }
 
+
+// ---------------------------------------------------------------------------
+// guard lattice at the scalar type Small (see the top of this file and Driver/RayBox.lean `small`)
+struct SmallLat
+{
+    std::vector<std::vector<double>> boxes;
+    std::vector<double>              pv, dv;
+    int  nBlocks () const { return (int) (boxes.size () * pv.size ()); }
+    long perBlock () const { return (long) (pv.size () * pv.size () * dv.size () * dv.size () * dv.size ()); }
+    void get (int blk, long ci, Box<Vec3<Small>>& b, Vec3<Small>& pos, Vec3<Small>& dir) const
+    {
+        long np = (long) pv.size (), nd = (long) dv.size ();
+        const std::vector<double>& B = boxes[blk / np];
+        long ix = blk % np, jz = ci % nd, jy = (ci / nd) % nd, jx = (ci / (nd * nd)) % nd, iz = (ci / (nd * nd * nd)) % np,
+             iy = ci / (nd * nd * nd * np);
+        b.min = Vec3<Small> (Small (B[0]), Small (B[1]), Small (B[2]));
+        b.max = Vec3<Small> (Small (B[3]), Small (B[4]), Small (B[5]));
+        pos   = Vec3<Small> (Small (pv[ix]), Small (pv[iy]), Small (pv[iz]));
+        dir   = Vec3<Small> (Small (dv[jx]), Small (dv[jy]), Small (dv[jz]));
+    }
+};
+static std::vector<double> parseList (const std::string& t, char sep)
+{
+    std::vector<double> r;
+    size_t              q = 0;
+    while (q < t.size ())
+    {
+        size_t d = t.find (sep, q);
+        if (d == std::string::npos) d = t.size ();
+        r.push_back (parseNum (t.substr (q, d - q).c_str ()));
+        q = d + 1;
+    }
+    return r;
+}
+static SmallLat parseSmall (char** a)
+{
+    SmallLat n;
+    g_smallT = parseNum (a[0]);
+    std::string s = a[1];
+    size_t      p = 0;
+    while (p < s.size ())
+    {
+        size_t c = s.find (';', p);
+        if (c == std::string::npos) c = s.size ();
+        n.boxes.push_back (parseList (s.substr (p, c - p), ','));
+        p = c + 1;
+    }
+    n.pv = parseList (a[2], ',');
+    n.dv = parseList (a[3], ',');
+    return n;
+}
+
 int main (int argc, char** argv)
 {
     if (argc < 2) return 2;
@@ -527,6 +714,64 @@ int main (int argc, char** argv)
         bool th = !strcmp (argv[4], "thorough");
         if (argv[2][0] == 'f') sweep<float> (strtoull (argv[3], 0, 10), th);
         else sweep<double> (strtoull (argv[3], 0, 10), th);
+        return 0;
+    }
+    if (!strcmp (argv[1], "small") && argc >= 6)
+    {
+        SmallLat n = parseSmall (argv + 2);
+        for (int blk = 0; blk < n.nBlocks (); ++blk)
+        {
+            uint64_t tie = 1469598103934665603ull;
+            long     nFe = 0, nIs = 0, nU = 0;
+            for (long ci = 0; ci < n.perBlock (); ++ci)
+            {
+                Box<Vec3<Small>> b;
+                Vec3<Small>      pos, dir;
+                n.get (blk, ci, b, pos, dir);
+                Out<Small> o = run<Small> (b, pos, dir);
+                tie          = mixB (specHash (tie, o), o.isb);
+                nFe += o.fe; nIs += o.is;
+                if (o.fe && o.entry == Vec3<Small> (1001, 1002, 1003) && o.exit == Vec3<Small> (2001, 2002, 2003)) ++nU;
+            }
+            printf ("%d %llu %ld %ld %ld\n", blk, (unsigned long long) tie, nFe, nIs, nU);
+        }
+        return 0;
+    }
+    if (!strcmp (argv[1], "smallcase") && argc >= 15)
+    {
+        g_smallT = parseNum (argv[2]);
+        double v[12];
+        for (int i = 0; i < 12; ++i) v[i] = parseNum (argv[3 + i]);
+        Box<Vec3<Small>> b;
+        b.min = Vec3<Small> (Small (v[0]), Small (v[1]), Small (v[2]));
+        b.max = Vec3<Small> (Small (v[3]), Small (v[4]), Small (v[5]));
+        Out<Small> o = run<Small> (b, Vec3<Small> (Small (v[6]), Small (v[7]), Small (v[8])),
+                                   Vec3<Small> (Small (v[9]), Small (v[10]), Small (v[11])));
+        printf ("I fe=%d entry=%s exit=%s is=%d ip=%s isb=%d\n", (int) o.fe, vs (o.entry).c_str (), vs (o.exit).c_str (),
+                (int) o.is, vs (o.ip).c_str (), (int) o.isb);
+        return 0;
+    }
+    if (!strcmp (argv[1], "smalllines") && argc >= 7)
+    {
+        SmallLat n   = parseSmall (argv + 2);
+        int      blk = atoi (argv[6]);
+        for (long ci = 0; ci < n.perBlock (); ++ci)
+        {
+            Box<Vec3<Small>> b;
+            Vec3<Small>      pos, dir;
+            n.get (blk, ci, b, pos, dir);
+            Out<Small> o = run<Small> (b, pos, dir);
+            printf ("%ld box=%s;%s pos=%s dir=%s | I fe=%d entry=%s exit=%s is=%d ip=%s isb=%d\n", ci, vs (b.min).c_str (),
+                    vs (b.max).c_str (), vs (pos).c_str (), vs (dir).c_str (), (int) o.fe, vs (o.entry).c_str (),
+                    vs (o.exit).c_str (), (int) o.is, vs (o.ip).c_str (), (int) o.isb);
+        }
+        return 0;
+    }
+    if (!strcmp (argv[1], "sweeplines") && argc >= 7)
+    {
+        bool th = !strcmp (argv[4], "thorough");
+        if (argv[2][0] == 'f') sweep<float> (strtoull (argv[3], 0, 10), th, atoi (argv[5]), atoi (argv[6]));
+        else sweep<double> (strtoull (argv[3], 0, 10), th, atoi (argv[5]), atoi (argv[6]));
         return 0;
     }
     fprintf (stderr, "usage: raybox_corr lattice|lines|case|sweep ...\n");
